@@ -7,8 +7,8 @@ import (
 	"sort"
 	"time"
 
-	"github.com/notaryproject/notation-core-go/signature"
 	revresult "github.com/notaryproject/notation-core-go/revocation/result"
+	"github.com/notaryproject/notation-core-go/signature"
 	"github.com/notaryproject/notation-go"
 	"github.com/opencontainers/go-digest"
 	ocispec "github.com/opencontainers/image-spec/specs-go/v1"
@@ -30,12 +30,12 @@ func (c06) Rule() string {
 func (c06) Components() map[string]string {
 	return map[string]string{
 		"verifier.Verify, verifyExpiry, verifyAuthenticTimestamp, verifyTimestamp": "real",
-		"tspclient-go token parsing / verification, notation-core-go envelope":    "real dependencies",
-		"TSA":                        "in-simulation RFC 3161 issuer (encoding/asn1 CMS SignedData / TSTInfo) with skewable clock, accuracy, purpose and chain",
-		"signer":                     "real GenericSigner with the TSA as Timestamper (good path) or notation-core-go SignRequest + spliced countersignature",
-		"trust store, revocation":    "scripted stubs",
-		"clock":                      "synctest bubble: every boundary instant reached exactly",
-		"reference model":            "time model of expiry and authentic timestamp",
+		"tspclient-go token parsing / verification, notation-core-go envelope":     "real dependencies",
+		"TSA":                     "in-simulation RFC 3161 issuer (encoding/asn1 CMS SignedData / TSTInfo) with skewable clock, accuracy, purpose and chain",
+		"signer":                  "real GenericSigner with the TSA as Timestamper (good path) or notation-core-go SignRequest + spliced countersignature",
+		"trust store, revocation": "scripted stubs",
+		"clock":                   "synctest bubble: every boundary instant reached exactly",
+		"reference model":         "time model of expiry and authentic timestamp",
 	}
 }
 
@@ -49,7 +49,7 @@ func (c06) Gen(r *rand.Rand, tier string, idx int) *core.Plan {
 	w["leafEnd"] = int64(r.IntN(3))
 	w["interEnd"] = int64(core.Pick(r, 2, 2, 1, 0))
 	w["rootEnd"] = int64(core.Pick(r, 2, 2, 2, 1))
-	w["expiry"] = int64(r.IntN(3)) // none, 1h, 3h
+	w["expiry"] = int64(r.IntN(3))  // none, 1h, 3h
 	w["tsaMode"] = int64(r.IntN(4)) // 0 no tsa store, 1 listed + unset, 2 always, 3 afterCertExpiry
 	w["counter"] = int64(core.Pick(r, 0, 1, 1, 1, 2, 3, 4, 5, 6, 7, 8, 9, 9, 9, 10, 11, 12))
 	// signing-authority: where the (authentic) signing time lies relative to the leaf's window; 0 = honest
@@ -59,7 +59,8 @@ func (c06) Gen(r *rand.Rand, tier string, idx int) *core.Plan {
 	w["accuracy"] = int64(core.Pick(r, 0, 1, 5, 0, 2))
 	w["accMillis"] = int64(core.Pick(r, 0, 0, 0, 500, 999))
 	// a second signature by the same signer with its own expiry, verified by the same process in between
-	w["entry"] = int64(r.IntN(2)) // OCI or blob entry point
+	w["entry"] = int64(r.IntN(2))                   // OCI or blob entry point
+	w["ctor"] = int64(r.IntN(2))                    // NewVerifierWithOptions / the deprecated NewWithOptions
 	w["nb"] = int64(core.Pick(r, 0, 0, 0, 1, 2, 3)) // which certificate (leaf / intermediate / root) becomes valid only 10 minutes after signing
 	w["expiryB"] = int64(r.IntN(3))
 	w["expiryAction"] = int64(core.Pick(r, 0, 0, 1)) // log (both validations always reported) / enforce (a failed expiry ends the verification)
@@ -240,10 +241,10 @@ func (l c06) Exec(env *core.Env) *core.Result {
 			return
 		}
 		type c06Sig struct {
-			bytes            []byte
-			expiry           time.Time
-			signedTime, gen  time.Time
-			counter          int64
+			bytes           []byte
+			expiry          time.Time
+			signedTime, gen time.Time
+			counter         int64
 		}
 		sigA := &c06Sig{sig, expiry, signedTime, gen, counter}
 		// the second signature: same signer and scheme, no countersignature, its own expiry
@@ -287,7 +288,7 @@ func (l c06) Exec(env *core.Env) *core.Result {
 			expiryAction = "enforce"
 		}
 		v, err := buildVerifier(vcfg{level: "strict", override: map[string]string{"expiry": expiryAction, "authenticTimestamp": "log", "revocation": "skip"}, verifyTimestamp: vt,
-			stores: stores, store: store, validator: &world.ScriptedValidator{}, tsValidator: tsVal})
+			stores: stores, store: store, validator: &world.ScriptedValidator{}, tsValidator: tsVal, ctor: w["ctor"]})
 		if err != nil {
 			res.Violate("HARNESS/verifier", "", "%v", err)
 			return
